@@ -877,3 +877,23 @@ func isYieldCall(sites []CallSite) VPred {
 		return false
 	}
 }
+
+// StructFloatFields lists "Owner.Field" for every float64 field of the named struct type of the main package.
+func (p *Prog) StructFloatFields(owner string) []string {
+	var out []string
+	o := p.Main.Types.Scope().Lookup(owner)
+	if o == nil {
+		return nil
+	}
+	st, ok := o.Type().Underlying().(*types.Struct)
+	if !ok {
+		return nil
+	}
+	for i := 0; i < st.NumFields(); i++ {
+		f := st.Field(i)
+		if b, ok := f.Type().Underlying().(*types.Basic); ok && b.Kind() == types.Float64 {
+			out = append(out, owner+"."+f.Name())
+		}
+	}
+	return out
+}
